@@ -8,6 +8,25 @@ BODIES = {
     "b_crlf_nul_http": b"\r\n\x00bin\r\nGET / HTTP/1.1\r\n\r\nend",
     "b_chunky": b"5\r\nabcde\r\n0\r\n\r\nX: y\r\n\r\n",
     "b_one": b"x",
+    "b_form": b"a=1&b=two+words&c=%41%2f&d",
+}
+# coded streams of the body tokens (committed constants: gzip with mtime 0, zlib deflate, LZMA-alone preset 1 with end marker)
+CODED = {
+    ("b_plain", "gzip"): "1f8b0800000000000203cb48cdc9c95748ca4fa90400593d933e0a000000",
+    ("b_plain", "deflate"): "789ccb48cdc9c95748ca4fa90400154b03e3",
+    ("b_plain", "lzma"): "5d00001000ffffffffffffffff00341949db855c634860a0dd06a69affff5eb40000",
+    ("b_crlf_nul_http", "gzip"): "1f8b0800000000000203e3e56248cacce3e572770d51d057f0080909d037d433e4e5e2e54acd4b0100822d12941d000000",
+    ("b_crlf_nul_http", "deflate"): "789ce3e56248cacce3e572770d51d057f0080909d037d433e4e5e2e54acd4b01005764061b",
+    ("b_crlf_nul_http", "lzma"): "5d00001000ffffffffffffffff000682bd9cc34920abcb0885b2d375ff1e9fd9417906d43f1c22b3344e7735a870ffffffb6368000",
+    ("b_chunky", "gzip"): "1f8b080000000000020333e5e54a4c4a4e49e5e532e0e5e2e58ab052a804d100ab1caf2417000000",
+    ("b_chunky", "deflate"): "789c33e5e54a4c4a4e49e5e532e0e5e2e58ab052a804d100371c040a",
+    ("b_chunky", "lzma"): "5d00001000ffffffffffffffff001a833d5071fa0d7105d92431777b7c31da6633164c6d32223ffdcd9d00",
+    ("b_one", "gzip"): "1f8b0800000000000203ab00008316dc8c01000000",
+    ("b_one", "deflate"): "789cab000000790079",
+    ("b_one", "lzma"): "5d00001000ffffffffffffffff003c41fbffffffe0000000",
+    ("b_form", "gzip"): "1f8b08000000000002034bb435544bb22d29cfd72ecf2f4a29564bb655353154354a534b0100e4d886ca1a000000",
+    ("b_form", "deflate"): "789c4bb435544bb22d29cfd72ecf2f4a29564bb655353154354a534b01006f4d07e0",
+    ("b_form", "lzma"): "5d00001000ffffffffffffffff00308f4222791b1046bb56defe1f656b86ca542d22fb45a74f5d93f7918d4d50fff8a77800",
 }
 
 
@@ -31,9 +50,15 @@ def line_bytes(l):
     return b
 
 
-def framing(fr, tok):
+def framing(fr, tok, coding="none"):
     """-> (header bytes, body wire bytes, entity body or None, wire body length or None)"""
-    data = BODIES[tok]
+    ent = BODIES[tok]
+    data = ent if coding == "none" else bytes.fromhex(CODED[(tok, coding)])
+    r = framing1(fr, data)
+    return r[0], r[1], (ent if r[2] is not None else None), r[3]
+
+
+def framing1(fr, data):
     if fr == "cl":
         return b"Content-Length: %d\r\n" % len(data), data, data, len(data)
     if fr == "cl0":
@@ -65,11 +90,15 @@ def render(x):
             head += b"Cookie: sid=abc123; theme=dark\r\n"
         if q["basic"]:
             head += b"Authorization: Basic dXNlcjpwYXNz\r\n"
+        if q["fr"] in ("cl", "chunked1", "chunked2", "close") and q["body"] == "b_form":
+            head += b"Content-Type: application/x-www-form-urlencoded\r\n"
         qm.append(head + fh + b"\r\n" + fb)
         if ent is not None:
             expq[k] = (ent, wl)
-        fh, fb, ent, wl = framing(s["fr"], s["body"])
+        fh, fb, ent, wl = framing(s["fr"], s["body"], s["coding"])
         head = s["v"].encode() + b" " + s["st"]["text"].encode() + b" " + s["st"]["reason"].encode() + b"\r\n" + b"".join(line_bytes(l) for l in s["lines"])
+        if s["coding"] != "none":
+            head += b"Content-Encoding: " + s["coding"].encode() + b"\r\n"
         sm.append(head + fh + b"\r\n" + fb)
         if ent is not None:
             exps[k] = (ent, wl)
